@@ -33,6 +33,8 @@ func loadExtremes(c *vlib.Ctx) ([]ext, []string) {
 			fmt.Sscan(strings.TrimPrefix(ln, "EXTCOUNT "), &want)
 		case strings.HasPrefix(ln, "FAMILIES "):
 			json.Unmarshal([]byte(vlib.UnquoteTLA(strings.TrimPrefix(ln, "FAMILIES "))), &fams)
+		case strings.HasPrefix(ln, "RV"):
+			revealLines = append(revealLines, ln) // the commit-then-reveal family (reveal.go)
 		}
 	}
 	if want != len(out) || len(out) == 0 {
@@ -407,8 +409,8 @@ func mutateBlock(c *vlib.Ctx, st *ledgerStats, exts []ext, sim *chain.Sim, g *gu
 		return seq%s == phase%s
 	}
 	for ei, e := range exts {
-		if e.Fam == "lifecycle" {
-			continue // scenarios of their own (runLifecycle)
+		if e.Fam == "lifecycle" || e.Fam == "reveal" {
+			continue // scenarios of their own (runLifecycle, runReveal)
 		}
 		if blockScope(e) {
 			if take(e) {
@@ -576,6 +578,13 @@ func runLedger(c *vlib.Ctx, exts []ext) (*ledgerStats, chain.RunStats) {
 				st.entriesHit[ei] = true
 				st.mu.Unlock()
 			}
+		}
+	}()
+	wg.Add(1)
+	go func() {
+		defer wg.Done()
+		if p, val := vlib.Recover(func() { runReveal(c, st, exts) }); p {
+			c.Infra("the reveal family failed in the harness: %v", val)
 		}
 	}()
 	wg.Wait()
